@@ -109,6 +109,45 @@ def run_case(case):
     return result(1, [oc], fails)
 
 
+# ---- one operand used twice: an operator must not alter what the next operator sees ------------------------
+def shared_cases(tier):
+    n = len(POOL_Q)
+    for op1 in S.ARITH + ['&', '=']:
+        for op2 in ('&', '=', '<', '+'):
+            for i in range(n):
+                for j in (0, 1, 11, 14, 18, 20, 21):        # 0, 1, "3", "abc", TRUE, blank, an error
+                    yield ['shared', op1, op2, i, j]
+
+
+def run_shared(case):
+    from xl.evalcell import eval_formula
+    _, op1, op2, i, j = case
+    (a, ta), (b, tb) = POOL_Q[i], POOL_Q[j]
+    fails, oc, n = [], [], 0
+    # (B1 op1 C1) op2 B1  and  B1 op2 (B1 op1 C1): the second use of B1 must see the original value
+    first = S.binary(op1, a, b)
+    if len(first) != 1 or S.REALROOT in first:
+        return result(0, ['skip:open-first-step'])
+    (m,) = first
+    for f, exp in (('=(B1%sC1)%sB1' % (op1, op2), S.binary(op2, m, a)), ('=B1%s(B1%sC1)' % (op2, op1), S.binary(op2, a, m)),
+                   ('=(B1%sC1)%sC1' % (op1, op2), S.binary(op2, m, b))):
+        got = eval_formula(f, {'B1': a, 'C1': b})
+        n += 1
+        oc.append('shared:%s' % (got[0] if got[0] != 'e' else got[1]))
+        if not S.accepted(got, exp):
+            fails.append(Fail('shared-operand', got=got, exp=sorted(map(str, exp)), op=op1 + ' then ' + op2, a=ta, b=tb, ak=a[0], bk=b[0], mode='cell',
+                              gotk=got[0] if got[0] != 'BAD' else got[1], formula=f))
+    return result(n, sorted(set(oc)), fails)
+
+
+_run_single = run_case
+
+
+def run_case(case):
+    return run_shared(case) if case[0] == 'shared' else _run_single(case)
+
+
 def run(ctx):
+    ctx.explore(run_case, shared_cases(ctx.tier), chunksize=128, label='operand_used_twice')
     ctx.explore(run_case, cases(ctx.tier), chunksize=256)
     return {'pool_size': len(pool(ctx.tier)), 'operators': len(S.BINOPS) + len(UNARY)}
